@@ -14,6 +14,27 @@ defined).
 
 Recipe = progen recipe + {"kind": "pass", "pass": <registered pass name>}.
 
+Signature of a mismatch (flat dict of strings):
+  check    result_changed | effects_changed | verify_fails | malformed_output
+  pass     registered pass name
+  diag     how the outcome differs: ub_introduced / poison_introduced / nontermination / result_value / result_poison /
+           result_count / effect_count / effect_value / memref_arg; for verify_fails the normalised verifier message
+           (use_of_removed_value, operand_type_mismatch:..., multi_block_region:<region>, op:<name>[:wrong_parent]);
+           for malformed_output undeclared_symbol / undefined_value / ...
+  what     the op that traps (ub_introduced) / the reason of the POISON run (poison_introduced), else "-"
+  feature  control construct(s) the pass targets in the program + shape class, e.g. "scf.for:zero_trip",
+           "scf.for:nest:ivs_used:outer_nondiv", "affine.load:expr_mod", "scf.if:no_else", "symref:nested"; its
+           components are repeated as loop / expr / branch, and context names enclosing region ops the pass does not
+           rewrite (in_scf.while).
+The feature is computed on the program REDUCED to the target statements (loops, ifs, affine ops, symref ops) that
+the failure needs (`reduce_targets`: greedy deletion of target statements keeping (check, diag) fixed), so that
+unrelated constructs of a large random program do not leak into the signature; the harness' shrinker then
+minimises the rest with the signature fixed.  Loop shape classes: generic (first of zero_trip, neg_lb, nondiv,
+step_gt_1, iter_args, nested, plain on the failing input) or pass specific -- range folding: iv_mul_nonpos, wraps,
+iv_mul_unknown, iv_mul_pos, iv_add (the chain of single uses of the induction variable, followed the way the
+pass does); flatten: nest:ivs_used:{outer_nondiv,outer_zero_trip,outer_div}, nest:ivs_unused:{inner_neg_range,
+inner_nondiv,outer_step_gt_1,inner_zero_trip,plain}.
+
 Generators.  One campaign per pass, each mixing generic progen programs (all control constructs, effects inside
 loops, scf.while as context) with shapes aimed at what the pass rewrites (read from the pass sources):
   * unroll: scf.for with constant lb/ub/step (zero-trip, negative ranges, non-divisible ranges, iter_args, nests);
@@ -162,13 +183,18 @@ def _const_of(v):
 def _runtime_operands(module, name, vec):
     """op -> operand values of its first execution in the reference run; entry block arguments -> their values."""
     trace: list = []
+    envs: list = []
     try:
-        refsem.run_function(module, name, vec, fuel=20000, trace=trace)
+        refsem.run_function(module, name, vec, fuel=20000, trace=trace, envs=envs)
     except refsem.UnsupportedOp:
         return {}
     out: dict = {}
     for op, vals in trace:
         out.setdefault(op, vals)
+    for env in envs:
+        for v, x in env.items():
+            if isinstance(x, int):
+                out.setdefault(v, x)
     for f in module.walk():
         if f.name == "func.func" and f.properties["sym_name"].data == name and f.regions[0].first_block is not None:
             for a, v in zip(f.regions[0].first_block.args, vec):
@@ -651,11 +677,6 @@ def _hc(v):
     return {"c": v, "hoist": 1}
 
 
-def _levels(**over):
-    F = progen.features(dict(int_types=INT_T, float_types=FLT_T, max_depth=2), **over)
-    return progen._stmt_levels(F)
-
-
 def _func_recipes(body, vt, pname, max_args=3):
     """body: strategy of statement lists -> program recipes with one function."""
     args = st.lists(st.sampled_from(vt), min_size=1, max_size=max_args)
@@ -872,30 +893,35 @@ def symref_programs(nested: bool, pname="frontend-desymrefy"):
                                                                                  "select"],
                         effects=["print"], control=[], symref=False, dup=False, index_bits=64)
     base = progen._stmt_levels(F)[0]
-    decl = st.builds(lambda t, v: {"op": "sym_decl", "t": t, "v": v}, st.sampled_from(vt), _REF)
-    fetch = st.builds(lambda k: {"op": "sym_fetch", "k": k}, st.integers(0, 3))
-    upd = st.builds(lambda k, v: {"op": "sym_update", "k": k, "v": v}, st.integers(0, 3), _REF)
-    show = st.builds(lambda t: {"op": "print", "k": 3, "args": [[t, 0]]}, st.sampled_from(vt))
+    decl = st.builds(lambda t, v: [{"op": "sym_decl", "t": t, "v": v}], st.sampled_from(vt), _REF)
+    # every fetched value is made observable: the newest value of each type is printed right after the fetch
+    showall = {"op": "print", "k": 3, "args": [[t, 0] for t in vt]}
+    fetch = st.builds(lambda k: [{"op": "sym_fetch", "k": k}, showall], st.integers(0, 3))
+    upd = st.builds(lambda k, v: [{"op": "sym_update", "k": k, "v": v}], st.integers(0, 3), _REF)
+    one = base.map(lambda x: [x])
     # .map(_ident) keeps one_of from flattening nested alternatives (the weights are real)
-    leaf = st.one_of(decl, fetch, fetch, fetch, upd, upd, upd, show, base.map(progen._ident),
-                     base.map(progen._ident)).map(progen._ident)
+    leaf = st.one_of(decl, fetch, fetch, fetch, upd, upd, upd, one, one).map(progen._ident)
+
+    def flat(xs):
+        return [s for x in xs for s in x]
     bnd = progen._bound(False)
     refs = st.lists(_REF, max_size=2)
     res = st.lists(st.sampled_from(vt), max_size=1)
 
     def regions(inner):
-        if_ = st.builds(lambda c, r, th, ty, el, ey: {"op": "if", "c": c, "res": r, "then": th, "ty": ty, "else": el,
-                                                      "ey": ey}, _REF, res, inner, refs, inner, refs)
-        for_ = st.builds(_for, st.just("index"), bnd, bnd, bnd, _iters(vt, 1), inner, refs)
+        if_ = st.builds(lambda c, r, th, ty, el, ey: [{"op": "if", "c": c, "res": r, "then": th, "ty": ty, "else": el,
+                                                       "ey": ey}], _REF, res, inner, refs, inner, refs)
+        for_ = st.builds(lambda *a: [_for(*a)], st.just("index"), bnd, bnd, bnd, _iters(vt, 1), inner, refs)
         return st.one_of(if_, for_).map(progen._ident)
-    l0 = st.lists(leaf, min_size=1, max_size=5)
+    l0 = st.lists(leaf, min_size=1, max_size=5).map(flat)
     if nested:
-        l1 = _cat(st.lists(leaf, max_size=3), st.lists(regions(l0), max_size=1), st.lists(leaf, max_size=2))
-        top = _cat(st.lists(leaf, max_size=3), st.lists(regions(l1), min_size=1, max_size=2),
-                   st.lists(leaf, max_size=3))
+        l1 = _cat(st.lists(leaf, max_size=3).map(flat), st.lists(regions(l0), max_size=1).map(flat),
+                  st.lists(leaf, max_size=2).map(flat))
+        top = _cat(st.lists(leaf, max_size=3).map(flat), st.lists(regions(l1), min_size=1, max_size=2).map(flat),
+                   st.lists(leaf, max_size=3).map(flat))
     else:
-        top = st.lists(leaf, max_size=10)
-    body = _cat(st.lists(decl, min_size=1, max_size=2), top, st.lists(fetch, max_size=2))
+        top = st.lists(leaf, max_size=10).map(flat)
+    body = _cat(st.lists(decl, min_size=1, max_size=2).map(flat), top, st.lists(fetch, max_size=2).map(flat))
     return _func_recipes(body, vt, pname)
 
 
@@ -923,8 +949,8 @@ def campaigns():
                                        affine=True, size=9), 2))
     out.append(("hoist:effects", _generic("control-flow-hoist", control=["scf_if", "scf_for", "scf_while"],
                                           affine=True, size=9), 2))
-    out.append(("symref:straight", symref_programs(False), 2))
-    out.append(("symref:nested", symref_programs(True), 2))
+    out.append(("symref:straight", symref_programs(False), 3))
+    out.append(("symref:nested", symref_programs(True), 3))
     return out
 
 
